@@ -29,17 +29,23 @@ DepositOK(calls, got) ==       \* got: resource -> balance actually received
   ELSE LET d == calls[1] IN
        \A r \in Ress : IF r \in ToSet(d.specified) THEN Sat(CFix(d.spec[r]), BFix(got[r]))
                        ELSE d.unspec \/ IsZero(BFix(got[r]))
-WithdrawOK(calls, gave) ==
-  \A r \in Ress : IF gave[r].kind = "f" THEN gave[r].a = SumAmt(calls, r, 1)
-                  ELSE ToSet(gave[r].ids) = UnionIds(calls, r, 1)
-Measured(a) == \A r \in Ress : a.net[r] = Amt(BFix(a.dep[r])) - Amt(BFix(a.wd[r]))
+\* wda = amounts that left the account according to its vault balances (received - net change - burned in place),
+\* wd.ids = the ids its WithdrawEvents name (lock_fee_and_withdraw* emit none: then only the count is compared)
+WithdrawOK(calls, a, feePayer) ==
+  \A r \in Ress :
+     \/ (r = "X" /\ feePayer)                      \* the fee payer's XRD vault also pays the fee: not comparable
+     \/ IF a.wd[r].kind = "f" THEN a.wda[r] = SumAmt(calls, r, 1)
+        ELSE /\ a.wda[r] = Whole * Cardinality(UnionIds(calls, r, 1))
+             /\ ToSet(a.wd[r].ids) \subseteq UnionIds(calls, r, 1)
+\* events and vault balances tell the same story wherever both speak
+Measured(a, feePayer) == \A r \in Ress : (r = "X" /\ feePayer) \/ Amt(BFix(a.wd[r])) <= a.wda[r]
 
 Checks(ev) ==
   << <<"deposit-within-bounds:A", DepositOK(ev.pred.dep["A"], ev.act["A"].dep)>>,
      <<"deposit-within-bounds:B", DepositOK(ev.pred.dep["B"], ev.act["B"].dep)>>,
      <<"deposit-within-bounds:C", DepositOK(ev.pred.dep["C"], ev.act["C"].dep)>>,
-     <<"withdraw-as-predicted", \A a \in Accts : WithdrawOK(ev.pred.wd[a], ev.act[a].wd)>>,
-     <<"measurement-consistent", \A a \in Accts : Measured(ev.act[a])>> >>
+     <<"withdraw-as-predicted", \A a \in Accts : WithdrawOK(ev.pred.wd[a], ev.act[a], a = "A" /\ ev.fee_from_account)>>,
+     <<"measurement-consistent", \A a \in Accts : Measured(ev.act[a], a = "A" /\ ev.fee_from_account)>> >>
 Failed(ev) == LET c == Checks(ev) IN [i \in {j \in 1..Len(c) : ~c[j][2]} |-> c[i][1]]
 TInit == l = 1
 TNext == /\ l <= Len(Rec)
